@@ -80,6 +80,7 @@ def analyse(g, res, crate):
     r = UnitResult()
     r.cmd, r.wall, r.rc = res['cmd'], res['wall'], res['rc']
     r.hard_errors = []      # type errors, unsupported features, ICEs ... (tool limits)
+    r.hard_items = []       # per hard error: the item it was reported in (or None)
     r.resource = []         # rlimit / timeout
     r.fail = {}             # obligation id -> list of rendered messages
     r.prelude_fail = []
@@ -107,6 +108,14 @@ def analyse(g, res, crate):
             continue
         if not any(msg.startswith(x) or x in msg for x in PROOF_FAIL):
             r.hard_errors.append(rendered)
+            # which item does the tool error sit in?  (None: prelude / unattributable)
+            hl = sp['line_start'] if sp else -1
+            hit = None
+            for name, (a, b) in g.item_ranges.items():
+                if a <= hl <= b:
+                    hit = name
+                    break
+            r.hard_items.append(hit)
             continue
         line = sp['line_start'] if sp else -1
         bstart = sp['byte_start'] if sp else -1
@@ -217,12 +226,51 @@ def run_unit(name, repo, workdir, rlimit=DEFAULT_RLIMIT, seed=0, vacuity=True):
     """Generate + verify one unit. Returns dict with everything the classifier needs."""
     unit = weave.load_unit(name)
     out = dict(unit=name)
-    try:
-        g = weave.build_unit(unit, repo)
-        gv = weave.build_unit(unit, repo, variant='vacuity') if vacuity else None
-    except weave.Undecided as e:
-        out['undecided'] = 'extraction: %s' % e
+    isolate = {}
+    # Item isolation: when ONE function can no longer be brought into the verifier (a rewrite pattern or proof anchor
+    # no longer matches, or Verus rejects a construct in it), that function is kept as a bare signature with its
+    # contract assumed, its obligations are reported UNDECIDED, and the rest of the unit is still decided.
+    for _round in range(6):
+        try:
+            g = weave.build_unit(unit, repo, isolate=frozenset(isolate))
+            gv = weave.build_unit(unit, repo, variant='vacuity', isolate=frozenset(isolate)) if vacuity else None
+            break
+        except weave.Undecided as e:
+            it = getattr(e, 'item', None)
+            if it is not None and getattr(e, 'isolatable', False) and it not in isolate:
+                isolate[it] = 'extraction: %s' % e
+                continue
+            out['undecided'] = 'extraction: %s' % e
+            return out
+    else:
+        out['undecided'] = 'extraction: too many items had to be isolated: %s' % sorted(isolate)
         return out
+    res = _run_generated(name, g, gv, workdir, rlimit, seed)
+    # tool errors that sit inside verified functions: isolate those functions and run again (at most twice)
+    for _round in range(2):
+        m = res['main_an']
+        bad = [it for it in m.hard_items if it is not None]
+        verifiable = {i['id'] for i in g.items if i.get('verified')}
+        new = [it for it in bad if it in verifiable and it not in isolate]
+        if not m.hard_errors or not new or any(it is None for it in m.hard_items):
+            break
+        for it, msg in zip(m.hard_items, m.hard_errors):
+            if it in new and it not in isolate:
+                isolate[it] = 'verifier rejects the function text: %s' % msg.strip().splitlines()[0][:300]
+        try:
+            g = weave.build_unit(unit, repo, isolate=frozenset(isolate))
+            gv = weave.build_unit(unit, repo, variant='vacuity', isolate=frozenset(isolate)) if vacuity else None
+        except weave.Undecided as e:
+            out['undecided'] = 'extraction: %s' % e
+            return out
+        res = _run_generated(name, g, gv, workdir, rlimit, seed)
+    out.update(res['out'])
+    out['isolated'] = dict(isolate)
+    return out
+
+
+def _run_generated(name, g, gv, workdir, rlimit, seed):
+    out = {}
     crate = name
     d = os.path.join(workdir, name)
     os.makedirs(d, exist_ok=True)
@@ -231,6 +279,8 @@ def run_unit(name, repo, workdir, rlimit=DEFAULT_RLIMIT, seed=0, vacuity=True):
     jobs = {}
     with ThreadPoolExecutor(max_workers=2) as ex:
         jobs['main'] = ex.submit(run_verus, main_path, rlimit, seed)
+        if gv is not None and not any(m['label'] in ('__vacuity', '__canary') for m in gv.marks):
+            gv = None      # nothing under contract is left to guard (all functions isolated)
         if gv is not None:
             dv = os.path.join(d, 'vac')
             os.makedirs(dv, exist_ok=True)
@@ -264,4 +314,4 @@ def run_unit(name, repo, workdir, rlimit=DEFAULT_RLIMIT, seed=0, vacuity=True):
         missing = [e for e in expected if not _failed(e)]
         out['canaries_expected'] = expected
         out['canaries_not_failing'] = missing
-    return out
+    return dict(out=out, main_an=out['main'])
